@@ -4,7 +4,7 @@ EXTENDS GenExec
 Singles == {{k} : k \in AllKinds}
 Pairs   == {{a, b} : a \in AllKinds, b \in AllKinds}
 Big     == {AllKinds, AllKinds \ {"arg", "argnest"}, ErrKinds \cup {"field", "nest"}, {"convE", "nestE", "nestE2", "mapE", "getter", "str"},
-            {"slcopy", "slloop", "slcast", "sltags", "slget", "slptr", "slstruct", "slbyte", "slbtag", "slext", "slextp", "slnest", "slhid", "ptr"}, {"field", "cast", "arg", "argnest", "lit", "skip", "skipci", "sibpfx", "nomatch", "npath", "twin"}}
+            {"slcopy", "slloop", "slcast", "sltags", "slget", "slptr", "slstruct", "slbyte", "slbtag", "slext", "slextp", "slnest", "slhid", "ptr"}, {"field", "cast", "arg", "argnest", "lit", "skip", "skipci", "sibpfx", "nomatch", "npath", "twin", "mapptr"}}
 MCKindSets == Singles \cup Pairs \cup Big
 MCKindSetsQ == Singles \cup Big \cup {{a, b} : a \in ErrKinds, b \in AllKinds}
 =============================================================================
